@@ -82,7 +82,13 @@ def event_arg(arg):
     """KeyPressEvent.arg"""
     if arg == "-":
         return -1
-    r = int(arg or 1)
+    # as the code since fix 7b1fd9f: significant digits only, more than seven are not converted
+    arg = arg or "1"
+    neg = arg.startswith("-")
+    digits = arg.lstrip("-").lstrip("0") or "0"
+    if len(digits) > 7:
+        return -1 if neg else 1
+    r = -int(digits) if neg else int(digits)
     return 1 if r >= 1000000 else r
 
 
@@ -110,6 +116,9 @@ MODELLED = {
     _P + "vi.load_vi_bindings.<locals>._go_down": 32, _P + "vi.load_vi_bindings.<locals>._go_down2": 33,
     _P + "named_commands.previous_history": 34, _P + "named_commands.next_history": 35,
     _P + "basic.load_basic_bindings.<locals>._go_up": 36, _P + "basic.load_basic_bindings.<locals>._go_down": 37,
+    # entering insert-multiple mode (Model/C05_BlockInsert.v, case kind 7)
+    _P + "vi.load_vi_bindings.<locals>.insert_in_block_selection": 39,
+    _P + "vi.load_vi_bindings.<locals>._append_after_block": 40,
 }
 _OPNAV = _P + "vi.create_operator_decorator.<locals>.operator_decorator.<locals>.decorator.<locals>._operator_in_navigation"
 
@@ -257,6 +266,20 @@ class Session:
         proc._call_handler = watch_escape
         return self
 
+    def render_now(self):
+        """Force the render the application would do after this key (Application._redraw, synchronously, so
+        that an exception of the layout / processors / menus code is collected at the key that causes it)."""
+        from prompt_toolkit.application.current import set_app
+        try:
+            with set_app(self.app):
+                self.app._redraw()
+            return None
+        except Exception as e:  # noqa
+            import traceback
+            tb = traceback.extract_tb(e.__traceback__)
+            fr = tb[-1]
+            return "%s@%s:%s" % (type(e).__name__, fr.filename.split("prompt_toolkit/")[-1], fr.name)
+
     # -- instrumentation of KeyProcessor._call_handler --------------------
     def instrument(self, ref_sig, records):
         """Record, for every handler call: the atom valuation, the key buffer,
@@ -305,6 +328,8 @@ class Session:
                 pre = self.model_state()
                 arg = event_arg(proc.arg)
                 data = key_sequence[-1].data
+                if arg is None:
+                    pre = "skip"
             exc = None
             try:
                 return orig(handler, key_sequence)
@@ -390,7 +415,8 @@ class Session:
             "mode": vs.input_mode.value, "op": vs.operator_func is not None, "oparg": vs.operator_arg,
             "digraph": bool(vs.waiting_for_digraph), "tempnav": bool(vs.temporary_navigation_mode),
             "rec": vs.recording_register, "quoted": bool(app.quoted_insert),
-            "arg": app.key_processor.arg, "kbuf": len(app.key_processor.key_buffer),
+            "arg": (lambda a: a if a is None or len(a) <= 24 else a[:24] + "...(%d)" % len(a))(app.key_processor.arg),
+            "argdigits": len((app.key_processor.arg or "").lstrip("-")), "kbuf": len(app.key_processor.key_buffer),
             "done": bool(app.is_done), "ro": bool(b.read_only()),
             "editing": app.editing_mode.value,
         }
@@ -595,6 +621,10 @@ def _run_case(cfg, keys, yield_every=0, per_key=None, instrument=None):
                     exc = None
                 else:
                     exc = s.key(tok)
+                    if cfg.get("render_each") and not exc:
+                        rexc = s.render_now()
+                        if rexc:
+                            s.loop_errors.append("render-after-key:" + rexc)
                 try:
                     after = s.observe()
                 except Exception as e:  # noqa - the editor state cannot even be read any more
